@@ -471,6 +471,66 @@ func runC10(c *kit.Ctx) {
 			c.Unk(app, "header-fields", app.Pos(), "fewer than three PutUint32 header writes found")
 		}
 	}
+	// writer field order: lengths, row length, row, family length, family, qualifier, timestamp, type, value
+	if cbsParam != nil && rowP != nil && famP != nil && qualP != nil && valP != nil {
+		tsP, typP := paramOfExactType(app, "uint64", 0), paramOfExactType(app, "byte", 0)
+		if typP == nil {
+			typP = paramOfExactType(app, "uint8", 0)
+		}
+		var seq []string
+		kit.Instrs(app, func(in ssa.Instruction) {
+			switch x := in.(type) {
+			case *ssa.Call:
+				n := kit.CalleeName(x)
+				switch {
+				case strings.HasSuffix(n, "bigEndian).PutUint32"):
+					seq = append(seq, "u32")
+				case strings.HasSuffix(n, "bigEndian).PutUint16"):
+					if l := kit.LenOf(convOperand(x.Call.Args[2])); l != nil && l == ssa.Value(rowP) {
+						seq = append(seq, "u16:len(row)")
+					} else {
+						seq = append(seq, "u16:?")
+					}
+				case strings.HasSuffix(n, "bigEndian).PutUint64"):
+					if x.Call.Args[2] == ssa.Value(tsP) {
+						seq = append(seq, "u64:ts")
+					} else {
+						seq = append(seq, "u64:?")
+					}
+				case n == "builtin.copy":
+					src := kit.Strip(x.Call.Args[1])
+					switch src {
+					case ssa.Value(rowP):
+						seq = append(seq, "row")
+					case ssa.Value(famP):
+						seq = append(seq, "family")
+					case ssa.Value(qualP):
+						seq = append(seq, "qualifier")
+					case ssa.Value(valP):
+						seq = append(seq, "value")
+					default:
+						seq = append(seq, "copy:?")
+					}
+				}
+			case *ssa.Store:
+				if ia, ok := x.Addr.(*ssa.IndexAddr); ok && kit.Root(ia.X) != nil {
+					if _, isByte := x.Val.Type().Underlying().(*types.Basic); isByte {
+						if x.Val == ssa.Value(typP) {
+							seq = append(seq, "u8:type")
+						} else if cv, ok := x.Val.(*ssa.Convert); ok {
+							if l := kit.LenOf(cv.X); l != nil && l == ssa.Value(famP) {
+								seq = append(seq, "u8:len(family)")
+							}
+						}
+					}
+				}
+			}
+		})
+		want := "u32 u32 u32 u16:len(row) row u8:len(family) family qualifier u64:ts u8:type value"
+		c.Check(strings.Join(seq, " ") == want, app, "field-order", app.Pos(), "KeyValue fields are written in the order: "+want,
+			"appendCellblock writes the KeyValue fields as ["+strings.Join(seq, " ")+"], the KeyValue layout (and this client's reader) is ["+want+"]")
+	}
+
 	// reader: qualifierLen = rowKeyLen - keyLen - familyLen - K with K = 12
 	{
 		found := false
